@@ -1,16 +1,8 @@
 //! `vh <property> [--tier quick|thorough] [--replay <file>] [--strict]`
 //! One binary for all checks; see /verif/DESIGN.md.
 
-#![allow(dead_code)]
-mod core;
-mod enc;
-mod gen;
-mod oracle;
-mod props;
-mod sched;
-mod util;
-
-use crate::core::{Ctx, Known, Tier};
+use vh::core::{self, Ctx, Known, Tier};
+use vh::{oracle, props, util};
 
 fn usage() -> ! {
     eprintln!("usage: vh <C01..C20> [--tier quick|thorough] [--replay <file>] [--strict]");
